@@ -217,6 +217,28 @@ def run_case(case):
                         V.append(dict(clause="unbatched_augment_differs_from_batched", conn=k_, field=f, ndim=int(a1.ndim)))
         except NotImplementedError:
             pass
+        # un-batched graph in which an existing node stepped exactly ONCE (arrays of length 1) augmented with a new consumer
+        try:
+            from distrax import Deterministic as _Det
+
+            from rex.base import Graph as _G, Vertex as _V
+            from rexmon.witness import Witness as _W
+
+            a1 = _W(name="a1", rate=1, delay_dist=_Det(0.01), idx=0, trace="none")
+            b1 = _W(name="b1", rate=10, delay_dist=_Det(0.002), idx=1, trace="none")
+            b1.connect(a1, window=1, delay_dist=_Det(0.003))
+            g1 = _G(vertices={"a1": _V(seq=onp.array([0], onp.int32), ts_start=onp.array([0.0], onp.float32), ts_end=onp.array([0.01], onp.float32))}, edges={})
+            r1 = npz(augment_graphs(g1, {"a1": a1, "b1": b1}, rng=jax.random.PRNGKey(3)))
+            counters["single_step_augments_checked"] += 1
+            for f in ("seq", "ts_start", "ts_end"):
+                got1 = onp.asarray(getattr(r1.vertices["a1"], f))
+                if got1.shape != (1,) or got1[0] != onp.asarray(getattr(g1.vertices["a1"], f))[0]:
+                    V.append(dict(clause="augment_changed_existing_single_step_vertex", field=f, shape=list(got1.shape)))
+            e1 = r1.edges.get(("a1", "b1"))
+            if e1 is None or onp.asarray(e1.seq_out).shape != (1,) or int(onp.asarray(e1.seq_out)[0]) != 0:
+                V.append(dict(clause="augment_single_step_edge_wrong", shape=None if e1 is None else list(onp.asarray(e1.seq_out).shape)))
+        except NotImplementedError:
+            pass
         key = f"{dg}/augment/{victim}"
         if V:
             items.append(dict(status="violated", key=key, nontrivial=True, witness=dict(mechanism=V[0]["clause"], violations=V[:4], spec=spec, removed=victim)))
